@@ -26,6 +26,206 @@ let show_state k nn (s : wstate) (evs : wev list) =
   Buffer.add_char b '\n';
   Buffer.contents b
 
+
+(* ---- fine-grained model, run sequentially: one call of thread t to completion ---- *)
+let fg_call (f : fstate) (t : int) (c : call) : fstate option =
+  let tn = nat_of_int t in
+  let th = f.fth tn in
+  if th.tpc <> PIdle then None else begin
+    let f = { f with fth = (fun x -> if x = tn then { th with tscript = [c] } else f.fth x) } in
+    let cur = ref f and fuel = ref 400 in
+    let fin () = !cur.fstop <> None || ((!cur.fth tn).tpc = PIdle && (!cur.fth tn).tscript = []) in
+    while not (fin ()) && !fuel > 0 do
+      let ((f', _), _) = gen_f_step tn !cur in cur := f'; decr fuel
+    done;
+    Some !cur
+  end
+
+let fg_agrees k nn (s : wstate) (f : fstate) : bool =
+  f.fstop = None && f.fmx = None && s.wd = f.fd &&
+  List.for_all (fun t -> let tn = nat_of_int t in
+                 let a = s.wa tn and b = (f.fth tn).tag in
+                 a.acked = b.acked && a.deferred = b.deferred && a.pending = b.pending) (range 0 k) &&
+  List.for_all (fun n -> let nn' = nat_of_int n in
+                 s.wtarget nn' = f.ftarget nn' &&
+                 List.for_all (fun t -> s.wwait nn' (nat_of_int t) = f.fwait nn' (nat_of_int t)) (range 0 k)) (range 0 nn)
+
+(* ---- exhaustive exploration of the fine-grained model: every interleaving of the per-thread scripts ----
+   (test of the statements and of the invariants used in the proofs; input = a lock-step case whose op lines are
+   regrouped per thread; output = "explored <n states>" and "!FG <violated statement>" lines) *)
+let pc_str = function
+  | PIdle -> "I" | POn0 -> "On0" | POn1 -> "On1" | POn2 c -> "On2." ^ string_of_n c | POn3 c -> "On3." ^ string_of_n c
+  | POn4 c -> "On4." ^ string_of_n c | POn5 c -> "On5." ^ string_of_n c
+  | POff0 -> "Off0" | POff1 -> "Off1" | POff2 c -> "Off2." ^ string_of_n c | POff3 c -> "Off3." ^ string_of_n c
+  | POff4 c -> "Off4." ^ string_of_n c | POff5 -> "Off5"
+  | PQd1 -> "Qd1" | PQd2 -> "Qd2" | PQd3 -> "Qd3" | PQd4 -> "Qd4" | PQd5 -> "Qd5" | PQd6 -> "Qd6"
+  | PQ1 -> "Q1" | PQ2 c -> "Q2." ^ string_of_n c | PQ3 c -> "Q3." ^ string_of_n c | PQ4 c -> "Q4." ^ string_of_n c
+  | PQ5 c -> "Q5." ^ string_of_n c | PQ6 c -> "Q6." ^ string_of_n c | PQ7 -> "Q7"
+  | PAb1 n -> "Ab1." ^ string_of_int (int_of_nat n) | PAb2 (n, tg) -> "Ab2." ^ string_of_int (int_of_nat n) ^ "." ^ string_of_n tg
+  | PAb3 (n, tg, c) -> "Ab3." ^ string_of_int (int_of_nat n) ^ "." ^ string_of_n tg ^ "." ^ string_of_n c
+  | PRun1 -> "R1" | PRun2 c -> "R2." ^ string_of_n c
+  | PQb1 -> "Qb1" | PQb2 tg -> "Qb2." ^ string_of_n tg | PQb3 (tg, c) -> "Qb3." ^ string_of_n tg ^ "." ^ string_of_n c
+  | PQb4 tg -> "Qb4." ^ string_of_n tg
+
+let key k nn (f : fstate) (aut : int option array) : string =
+  let b = Buffer.create 256 in
+  let d = f.fd in
+  Buffer.add_string b (Printf.sprintf "%s %s %s %s m%s s%s" (string_of_n d.ctr) (string_of_n d.desired) (string_of_n d.nagents)
+    (string_of_n d.toack) (match f.fmx with None -> "-" | Some t -> string_of_int (int_of_nat t))
+    (match f.fstop with None -> "-" | Some (StopAssert (_, l)) -> "a" ^ string_of_n l | Some (StopUB _) -> "ub"));
+  for t = 0 to k - 1 do
+    let th = f.fth (nat_of_int t) in
+    Buffer.add_string b (Printf.sprintf "|%s %d %s %s %b [%s]" (pc_str th.tpc) (List.length th.tscript)
+      (match th.tret with None -> "-" | Some x -> string_of_n x) (string_of_n th.tag.acked) th.tag.deferred
+      (String.concat "," (List.map (fun n -> string_of_int (int_of_nat n)) th.tag.pending)));
+    Buffer.add_char b ' ';
+    for x = 0 to k - 1 do Buffer.add_char b (if f.fqbw (nat_of_int t) (nat_of_int x) then '1' else '0') done
+  done;
+  for n = 0 to nn - 1 do
+    let n' = nat_of_int n in
+    Buffer.add_string b (Printf.sprintf "|%s %s %s %s " (string_of_n (f.ftarget n')) (string_of_n (f.fwtg n'))
+      (match f.fowner n' with None -> "-" | Some t -> string_of_int (int_of_nat t))
+      (match aut.(n) with None -> "-" | Some t -> string_of_int t));
+    for x = 0 to k - 1 do Buffer.add_char b (if f.fwait n' (nat_of_int x) then '1' else '0') done
+  done;
+  Buffer.contents b
+
+(* the invariants used in Qs/QsFgProofs.v, as executable checks *)
+let fg_invariants k nn (f : fstate) : string list =
+  let errs = ref [] in
+  let err s = errs := s :: !errs in
+  let d = f.fd in
+  let n_ x = i64_of_n x in
+  let ctr = n_ d.ctr and toack = n_ d.toack and nag = n_ d.nagents in
+  let th t = f.fth (nat_of_int t) in
+  let ts = range 0 k in
+  let member t = match (th t).tpc with
+    | POn2 _ | POn3 _ | POn4 _ | POn5 _ -> true
+    | POff2 _ | POff3 _ | POff4 _ | POff5 -> false
+    | _ -> (th t).tag.acked <> N0 in
+  let eacked t = let a = n_ (th t).tag.acked in match (th t).tpc with
+    | POn2 c | POn3 c | POn4 c | POn5 c -> n_ c
+    | PQ3 _ | PQ4 _ | PQ5 _ | PQ6 _ | PQ7 -> Int64.add a 1L
+    | _ -> a in
+  let special0 t = match (th t).tpc with POn4 _ | POff4 _ | PQd5 | PQ6 _ -> true | _ -> false in
+  let vctr = if List.exists special0 ts then Int64.add ctr 1L else ctr in
+  let needs t = match (th t).tpc with
+    | POff2 _ -> true
+    | _ -> member t && Int64.add (eacked t) 1L = vctr in
+  let special t = match (th t).tpc with POn4 _ | POff4 _ | PQd5 | PQ6 _ -> true | _ -> false in
+  let holds t = match (th t).tpc with
+    | POn1 | POn2 _ | POn3 _ | POn4 _ | POn5 _ | POff1 | POff2 _ | POff3 _ | POff4 _ | POff5
+    | PQd4 | PQd5 | PQd6 | PQ5 _ | PQ6 _ | PQ7 -> true | _ -> false in
+  let restarter t = (th t).tag.deferred || (match (th t).tpc with
+    | PQ3 _ | PQ4 _ | PQ5 _ | PQ6 _ | POff3 _ | POff4 _ | POn2 _ | POn3 _ | POn4 _ -> true | _ -> false) in
+  let count p = Int64.of_int (List.length (List.filter p ts)) in
+  if f.fstop = None then begin
+    if ctr < 1L then err "ctr>=1";
+    (* mutex holder *)
+    List.iter (fun t -> if holds t <> (f.fmx = Some (nat_of_int t)) then err (Printf.sprintf "holder %d" t)) ts;
+    if nag <> count member then err "J3";
+    if toack <> count needs then err "J2v";
+    if List.length (List.filter special ts) > 1 then err "two special";
+    List.iter (fun x ->
+        if member x && not (eacked x = vctr || Int64.add (eacked x) 1L = vctr) then err (Printf.sprintf "J1v %d" x);
+        let a = n_ (th x).tag.acked in
+        (match (th x).tpc with
+         | PQ2 c | PQ3 c | PQ4 c | PQ5 c | PQ6 c -> if n_ c <> ctr || Int64.add a 1L <> n_ c then err "L-Q"
+         | POff2 c | POff3 c | POff4 c -> if n_ c <> ctr || Int64.add a 1L <> n_ c then err "L-Off"
+         | POn2 c | POn3 c | POn4 c -> if n_ c <> ctr || nag <> 1L then err "L-On"
+         | PRun2 c -> if n_ c > ctr then err "L-Run"
+         | PQd1 | PQd2 | PQd3 | PQd4 | PQd5 -> if not (th x).tag.deferred then err "L-Qd"
+         | PQ1 | PQ7 | PQd6 -> if (th x).tag.deferred then err "L-Q-notdef"
+         | _ -> ());
+        if (th x).tag.deferred then begin
+          if not (member x) then err "J4-member";
+          if a <> ctr then err "J4-acked"
+        end;
+        if restarter x && not (special x) && toack <> 0L then err (Printf.sprintf "R2 %d" x))
+      ts;
+    if List.length (List.filter restarter ts) > 1 then err "R1";
+    (* K *)
+    for n = 0 to nn - 1 do
+      let n' = nat_of_int n in
+      List.iter (fun x ->
+          if f.fwait n' (nat_of_int x) then begin
+            let a = n_ (th x).tag.acked in
+            if a = 0L || in_quiescent (th x).tpc || Int64.add a 2L > n_ (f.fwtg n') then err (Printf.sprintf "K n%d x%d" n x)
+          end) ts;
+      if f.ftarget n' <> N0 then begin
+        match f.fowner n' with
+        | None -> err "M-owner"
+        | Some t ->
+          let tht = f.fth t in
+          if not (List.mem n' tht.tag.pending) then err "M-pending";
+          if not (f.fwtg n' = f.ftarget n' || (match tht.tpc with PAb2 (m, _) | PAb3 (m, _, _) -> m = n' | _ -> false)) then err "M-wtg"
+      end
+    done;
+    List.iter (fun t ->
+        let tg = match (th t).tpc with PQb2 tg | PQb3 (tg, _) | PQb4 tg -> Some tg | _ -> (th t).tret in
+        (match tg with
+         | Some tg -> List.iter (fun x -> if f.fqbw (nat_of_int t) (nat_of_int x) then begin
+               let a = n_ (th x).tag.acked in
+               if a = 0L || in_quiescent (th x).tpc || Int64.add a 2L > n_ tg then err (Printf.sprintf "Kq t%d x%d" t x) end) ts
+         | None -> ());
+        (match (th t).tpc with PAb2 (n, tg) | PAb3 (n, tg, _) -> if f.fwtg n <> tg then err "L-Ab" | _ -> ()))
+      ts
+  end;
+  !errs
+
+let explore k nn (scripts : (int * call) list) allowed_stops max_states =
+  let script_of t = List.filter_map (fun (x, c) -> if x = t then Some c else None) scripts in
+  let f0 = f0 (fun t -> script_of (int_of_nat t)) in
+  let seen = Hashtbl.create 4096 in
+  let viol = Hashtbl.create 16 in
+  let report s = if not (Hashtbl.mem viol s) then Hashtbl.add viol s () in
+  let stack = ref [ (f0, Array.make nn None) ] in
+  Hashtbl.add seen (key k nn f0 (Array.make nn None)) ();
+  let count = ref 1 in
+  while !stack <> [] && !count < max_states do
+    (match !stack with
+     | [] -> ()
+     | (f, aut) :: rest ->
+       stack := rest;
+       List.iter (fun e -> report ("invariant " ^ e)) (fg_invariants k nn f);
+       let kf = key k nn f aut in
+       let any_enabled = ref false in
+       for t = 0 to k - 1 do
+         let tn = nat_of_int t in
+         let ((f', evs), _) = gen_f_step tn f in
+         let aut' = Array.copy aut in
+         List.iter (fun e -> match e with
+             | WReg (n, t') -> let n = int_of_nat n in
+               if aut'.(n) <> None then report "node registered while registered"; aut'.(n) <- Some (int_of_nat t')
+             | WCb (n, t') ->
+               let ni = int_of_nat n in
+               if int_of_nat t' <> t then report "callback event attributed to another thread";
+               (match (f.fth tn).tpc with PRun2 _ -> () | _ -> report "callback outside run()");
+               if aut'.(ni) <> Some t then report "callback not (or not any more) registered by this agent";
+               aut'.(ni) <- None;
+               for x = 0 to k - 1 do if f.fwait n (nat_of_int x) then report "grace period: callback while waiting set non-empty" done
+             | WNode n -> if aut'.(int_of_nat n) = None then report "node touched while not registered (after its callback started)"
+             | WQbRet t' ->
+               for x = 0 to k - 1 do if f'.fqbw t' (nat_of_int x) then report "quiescent_barrier returned while its waiting set is non-empty" done
+             | WMx _ -> ()) evs;
+         (match f'.fstop with
+          | Some (StopAssert (_, l)) -> if not (List.mem (Int64.to_int (i64_of_n l)) allowed_stops) then report ("assertion stop at line " ^ string_of_n l)
+          | Some (StopUB _) -> report "unlock of a mutex not held"
+          | None -> ());
+         let k' = key k nn f' aut' in
+         if k' <> kf then begin
+           any_enabled := true;
+           if not (Hashtbl.mem seen k') then begin Hashtbl.add seen k' (); incr count; stack := (f', aut') :: !stack end
+         end
+       done;
+       if not !any_enabled && f.fstop = None then begin
+         let unfinished = List.exists (fun t -> let th = f.fth (nat_of_int t) in th.tpc <> PIdle || th.tscript <> []) (range 0 k) in
+         if unfinished then report "deadlock: calls in flight but no thread can take a step"
+       end)
+  done;
+  Printf.printf "explored %d states%s\n" !count (if !count >= max_states then " (state limit reached)" else "");
+  Hashtbl.iter (fun s () -> print_string ("!FG " ^ s ^ "\n")) viol
+
 let body lines =
   match lines with
   | [] -> ()
@@ -34,8 +234,17 @@ let body lines =
      | "cfg" :: k :: nn :: rest ->
        let k = min 8 (max 1 (int_of_string k)) and nn = min 16 (max 1 (int_of_string nn)) in
        if rest = ["stress"] then print_string "stress done\n"
+       else if rest = ["explore"] then begin
+         let parse l = match words l with
+           | ["on"; t] -> Some (int_of_string t, COnline) | ["off"; t] -> Some (int_of_string t, COffline)
+           | ["qs"; t] -> Some (int_of_string t, CQsCall) | ["run"; t] -> Some (int_of_string t, CRun)
+           | ["qb"; t] -> Some (int_of_string t, CQBarrier)
+           | ["ab"; t; n] -> Some (int_of_string t, CAwait (nat_of_int (int_of_string n))) | _ -> None in
+         explore k nn (List.filter_map parse ops) [127] 400000
+       end
        else begin
          let s = ref w0 in
+         let fs = ref (f0 (fun _ -> [])) in
          (try
             List.iter (fun l ->
                 let c = match words l with
@@ -49,9 +258,20 @@ let body lines =
                   | _ -> None in
                 match c with
                 | Some (t, c) when t >= 0 && t < k ->
+                  let fr = fg_call !fs t c in
+                  (match fr with Some f' -> fs := f' | None -> ());
                   (match gen_w_step (nat_of_int t) c !s with
-                   | Ok (s', evs) -> s := s'; print_string (show_state k nn s' evs)
-                   | AssertStop l -> print_string ("assert " ^ string_of_n l ^ "\n"); raise Exit
+                   | Ok (s', evs) -> s := s';
+                     (match fr with
+                      | Some f' when fg_agrees k nn s' f' -> ()
+                      | Some f' when c = CQBarrier && f'.fstop = None && (f'.fth (nat_of_int t)).tpc <> PIdle -> ()
+                      | _ -> print_string "!MODEL fine-grained model run sequentially disagrees with the whole-operation model\n");
+                     print_string (show_state k nn s' evs)
+                   | AssertStop l ->
+                     (match fr with
+                      | Some f' when (match f'.fstop with Some (StopAssert (_, l')) -> l' = l | _ -> false) -> ()
+                      | _ -> print_string "!MODEL fine-grained model does not stop in the same assertion\n");
+                     print_string ("assert " ^ string_of_n l ^ "\n"); raise Exit
                    | Blocked -> print_string "deadlock\n"; raise Exit
                    | UB _ -> print_string "ub-unlock\n"; raise Exit
                    | OutOfFuel -> print_string "out-of-fuel\n"; raise Exit)
